@@ -279,12 +279,12 @@ def compare(I, op, a, b):
     x, y = to_expr(a), to_expr(b)
     r = {ast.Lt: sp.Lt, ast.Gt: sp.Gt, ast.LtE: sp.Le, ast.GtE: sp.Ge}[type(op)](x, y)
     r = _pb(r)
-    if not isinstance(r, bool) and sp.count_ops(x - y) < 250:
+    if not isinstance(r, bool) and sp.count_ops(x - y) < 60:
         # sign through factoring (e.g. sqrt(K/1000) - sqrt(K/2000) with K > 0)
         try:
             from .algebra import time_limit
-            with time_limit(2):
-                dfac = sp.factor(sp.simplify(x - y))
+            with time_limit(1):
+                dfac = sp.factor(x - y)
             sgn = 1 if dfac.is_positive else -1 if dfac.is_negative else 0 if dfac.is_zero else None
         except Exception:
             sgn = None
